@@ -139,6 +139,23 @@ func genTqCase(r *Rng, c *Ctx, prop string) tqCase {
 		}
 		return d
 	}
+	if prop == "C06" && r.Chance(7) {
+		// directed: an upload gives up on an object whose local file is missing while the server wants it;
+		// the producer — which cannot know — goes on adding NEW objects afterwards, then waits
+		d := tqCase{N: 3 + r.Intn(4), BatchSize: Pick(r, []int{1, 1, 2}), MaxRetries: 2, MaxDelay: 0, Workers: 1 + r.Intn(3), Upload: true}
+		for i := 0; i < d.N; i++ {
+			d.Adds = append(d.Adds, i)
+			d.Obj = append(d.Obj, []string{"action:ok"})
+		}
+		d.Obj[r.Intn(d.BatchSize)] = []string{"missing"}
+		d.AddGapAfter = d.BatchSize
+		d.AddGapMs = Pick(r, []int{300, 600})
+		for k := 0; k < 8; k++ {
+			d.Calls = append(d.Calls, "200")
+			d.Unknown = append(d.Unknown, false)
+		}
+		return d
+	}
 	if prop == "C15" && r.Chance(12) {
 		// directed: several objects waiting at once with DIFFERENT ready times and nothing else ready
 		d := tqCase{N: 2 + r.Intn(2), BatchSize: Pick(r, []int{2, 3, 100}), MaxRetries: 3, MaxDelay: Pick(r, []int{0, 1}), Workers: 2}
